@@ -35,6 +35,7 @@ func checkDefs() map[string]*CheckDef {
 					{Name: "processors-call-site", Pkg: ioc + "/container/factory", Entry: "VerifC12Processors", Params: map[string]int{"K": tierPick(tier, 3, 4), "DECORATE": 1}, MustCover: []string{"callbacks checked", "eager processor", "a processor component decorated by an earlier processor"}},
 					{Name: "runners-call-site", Pkg: ioc + "/app", Entry: "VerifC13", Params: map[string]int{"N": 3, "FAULTS": 0}, MustCover: []string{"all runners ok"}},
 					{Name: "loaders-call-site", Pkg: ioc + "/configure", Entry: "VerifC15Load", Params: map[string]int{"N": 3}, MustCover: []string{"several loaders"}},
+					{Name: "many-participants", Pkg: ioc + "/configure", Entry: "VerifC15ManyLoaders", MustCover: []string{"many loaders"}},
 				}
 			},
 			LevelText: "Bounded symbolic model checking of the real SortOrderedComponents/orderedComponentComparator and the real stdlib sort.Slice SSA: for every multiset of up to N participants of the three classes with unconstrained 64-bit Order() values and every input order, z3 shows the output is a permutation, classes are grouped priority<ordered<plain and Order never decreases inside the first two groups.",
@@ -187,6 +188,7 @@ func checkDefs() map[string]*CheckDef {
 				return []RunSpec{
 					{Name: "options", Pkg: app, Entry: "VerifC15Options", Params: map[string]int{"K": tierPick(tier, 3, 4)}, MustCover: []string{"file added", "loader added", "ordered custom loader added"}},
 					{Name: "load", Pkg: ioc + "/configure", Entry: "VerifC15Load", Params: map[string]int{"N": tierPick(tier, 3, 4)}, MustCover: []string{"several loaders", "loader failed"}},
+					{Name: "many-loaders", Pkg: ioc + "/configure", Entry: "VerifC15ManyLoaders", MustCover: []string{"many loaders"}},
 					{Name: "conflicting-shapes", Pkg: ioc + "/configure", Entry: "VerifC15Conflicts", MustCover: []string{"later map replaces earlier scalar"}},
 					{Name: "merge-real-viper", Pkg: ioc + "/configure", Entry: "VerifC15Merge", Params: map[string]int{"N": tierPick(tier, 2, 3)}, MustCover: []string{"merged", "overlapping documents merged", "subtree replaced at run time", "command-line arguments loaded", "source added after a first read"}},
 				}
@@ -338,7 +340,8 @@ func checkDefs() map[string]*CheckDef {
 		&CheckDef{ID: "C11", Title: "Tag scanning through embedded structs, frame condition",
 			Runs: func(tier string) []RunSpec {
 				return []RunSpec{{Name: "shapes", Pkg: fac, Entry: "VerifC11", Params: map[string]int{"SHAPES": 10}, MustCover: []string{"see-through embedding", "opaque embedding", "same type embedded twice", "same-named embedded types"}, Opts: ExecOpts{PermuteRange: tier == "thorough"}},
-					{Name: "custom-node-type", Pkg: prc, Entry: "VerifC11CustomNode", MustCover: []string{"custom processor sharing a built-in node type"}}}
+					{Name: "custom-node-type", Pkg: prc, Entry: "VerifC11CustomNode", MustCover: []string{"custom processor sharing a built-in node type"}},
+					{Name: "nil-config-pointer", Pkg: prc, Entry: "VerifC11NilConfigPointer", MustCover: []string{"nil configuration-properties pointers"}}}
 			},
 			LevelText: "Bounded symbolic model checking of NewMeta/scanFields/ForEachFieldV2, the real tag-scan processors (wire, func, value+prop, prefix, logger) plus a custom-tag processor, and the real populate path, on a fixed family of struct shapes (flat; the same tagged block embedded by value at depth 1, 2, 3; embedded struct with an unexported type name, also in the middle of the chain; embedded struct that itself carries a tag; embedded pointer-to-struct) with SYMBOLIC initial contents of every field and symbolic configured values: per shape the property list and every bound value equal those of the flat twin, the custom processor receives exactly its field with value and arguments, and unexported / untagged / foreign-tagged / unexported-but-tagged fields are bit-identical afterwards.",
 			LevelNote: "Reduced claim: struct types are program text, not solver data - the quantification over 'all struct shapes' is NOT addressed, only the 8 shapes listed. The reflect model's CanSet/embedding rules are validated by native replay of the sampled paths on exactly these shapes.",
